@@ -805,16 +805,31 @@ const TEMPLATES: &[&[&[Ip]]] = &[
 
 const PORTS: &[u16] = &[5000, 5001, 80, 0, 0, 49152, 49153, 49154, 65535, 65534];
 
+thread_local! {
+    /// Lines of the case being produced (see `Out::step`); cleared by `main` before every case.
+    pub static PARTIAL: std::cell::RefCell<Vec<String>> = const { std::cell::RefCell::new(Vec::new()) };
+}
+
 pub struct Out {
     pub lines: Vec<String>,
 }
 
 impl Out {
     fn step(&mut self, w: &mut World, st: &mut Stats, op: Op) -> String {
+        // mirror of the trace written so far, so that a panic inside the crate leaves a
+        // replayable case (the history up to and including the panicking call) behind
+        PARTIAL.with(|p| {
+            let mut p = p.borrow_mut();
+            if p.is_empty() {
+                p.extend(self.lines.iter().cloned());
+            }
+            p.push(op.line());
+        });
         let obs = w.exec(&op);
         st.note(&op, &obs);
         self.lines.push(op.line());
         self.lines.push(format!("OBS {obs}"));
+        PARTIAL.with(|p| p.borrow_mut().push(format!("OBS {obs}")));
         for x in w.xfail.drain(..) {
             self.lines.push(format!("OBS xcheck {x}"));
         }
@@ -884,6 +899,7 @@ pub fn gen_table_case(rng: &mut Rng, st: &mut Stats, max_ops: usize, big_cycle: 
             if lsn_slots.is_empty() { 0 } else { zombie_w / 2 },
             zombie_w / 2,
             zombie_w / 2,
+            5,
         ];
         match rng.weighted(&ws) {
             0 => {
@@ -1094,6 +1110,54 @@ pub fn gen_table_case(rng: &mut Rng, st: &mut Stats, max_ops: usize, big_cycle: 
                     out.step(&mut w, st, Op::Netstat);
                 }
             }
+            14 => {
+                // the unspecified address as a *destination* is an unknown address: routed to no
+                // host, never delivered, never answered -- with and without a wildcard-bound
+                // socket of the same protocol and port on the sender
+                let h = rng.below(nh);
+                let v6 = if rng.chance(1, 4) { !addrs[h][0].v6 } else { addrs[h][0].v6 };
+                let unspec = Ip { v6, n: 0 };
+                let port = *rng.pick(&[5000u16, 5001, 80, 7300]);
+                let (su, sl, sx) = (next_slot, next_slot + 1, next_slot + 2);
+                next_slot += 3;
+                let tag = next_tag;
+                next_tag += 1;
+                // a sender of the right family on this host (an existing socket or a fresh one)
+                let have: Vec<u32> = udp_slots
+                    .iter()
+                    .filter(|(k, uh)| *uh == h && matches!(w.info(*k), Some((_, _, la, _)) if la.is_ipv6() == v6))
+                    .map(|(k, _)| *k)
+                    .collect();
+                let wild_u = rng.chance(1, 2);
+                let mut sender = if !have.is_empty() && rng.chance(1, 2) { Some(*rng.pick(&have)) } else { None };
+                if wild_u {
+                    // a wildcard-bound UDP socket on the target port; half of the time it is the sender itself
+                    let o = out.step(&mut w, st, Op::UBind { h, s: su, ip: unspec, port });
+                    if o.starts_with("ok") && (sender.is_none() || rng.chance(1, 2)) {
+                        sender = Some(su);
+                    }
+                }
+                if sender.is_none() {
+                    let ip = if rng.chance(1, 2) { unspec } else { first_of_family(&addrs[h], v6).unwrap_or(unspec) };
+                    let o = out.step(&mut w, st, Op::UBind { h, s: sx, ip, port: 0 });
+                    if o.starts_with("ok") {
+                        sender = Some(sx);
+                    }
+                }
+                if let Some(s) = sender {
+                    out.step(&mut w, st, Op::USend { h, s, ip: unspec, port, tag });
+                    out.step(&mut w, st, Op::Drain);
+                }
+                if rng.chance(1, 2) {
+                    out.step(&mut w, st, Op::TListen { h, s: sl, ip: unspec, port });
+                }
+                let sc = next_slot;
+                next_slot += 1;
+                out.step(&mut w, st, Op::TConnect { h, s: sc, ip: unspec, port });
+                if rng.chance(1, 3) {
+                    out.step(&mut w, st, Op::Netstat);
+                }
+            }
             _ => {
                 // a stray SYN answered by a listener, then reset by its sender
                 let (ls, lh) = *rng.pick(&lsn_slots);
@@ -1154,7 +1218,7 @@ pub fn gen_table_case(rng: &mut Rng, st: &mut Stats, max_ops: usize, big_cycle: 
         }
     }
     let mut dsts = everyone.clone();
-    dsts.extend_from_slice(&[Ip::v4(1), Ip::v4(2), Ip::v6(1), Ip::v4(90), Ip::v6(90)]);
+    dsts.extend_from_slice(&[Ip::v4(1), Ip::v4(2), Ip::v6(1), Ip::v4(90), Ip::v6(90), Ip::v4(0), Ip::v6(0)]);
     let mut sport = 41000u16;
     for h in 0..nh {
         for dst in &dsts {
